@@ -412,7 +412,7 @@ var $methodSet = typ => {
     if (typ.methodSetCache !== null) {
         return typ.methodSetCache;
     }
-    var base = {};
+    var base = Object.create(null);
 
     var isPtr = (typ.kind === $kindPtr);
     if (isPtr && typ.elem.kind === $kindInterface) {
